@@ -1,7 +1,7 @@
 (* C13 property theorems (statements only; proofs in RestartProofs/Examples). *)
 From Coq Require Import List NArith Bool Arith.
 From LV Require Import Arb.RestartModel Arb.RestartExec Arb.RestartProofs Arb.RestartInv
-  Arb.RestartProgress Arb.RestartExamples.
+  Arb.RestartProgress Arb.RestartExamples Arb.RestartIncModel Arb.RestartIncProofs.
 Import ListNotations.
 
 (* Every upstream resolution / final htlc outcome / resolved notification that
@@ -123,4 +123,102 @@ Proof.
   exists sc_two, h_7c, [M; M], 22%N, 1, 0.
   split; [reflexivity|]. split; [vm_compute; reflexivity|].
   split; [vm_compute; reflexivity|]. auto.
+Qed.
+
+(* ------------------------------------------------------------------ *)
+(* RECEIVED (incoming) htlcs: htlcIncomingContestResolver / htlcSuccessResolver
+   as one machine (RestartIncModel) whose branch is decided by the
+   environment DURING the history.  Histories: any list of resolver micro
+   steps, stops (the goroutine is relaunched from the persisted contract),
+   "the witness beacon learns the preimage" and "the chain reaches the expiry
+   height", in any order. *)
+
+(* NO received htlc is both finally settled (claimed with the preimage) and
+   finally failed (abandoned at expiry), and no history writes both a
+   Claimed/FirstStage and a Timeout report -- whatever the order of stops,
+   preimage arrival and expiry. *)
+Theorem C13_incoming_no_contradiction : forall (p : iparams) (h : list iev),
+  ~ (In (OFinal (ip_idx p) true) (i_outs (irun p h))
+     /\ In (OFinal (ip_idx p) false) (i_outs (irun p h)))
+  /\ ~ ((exists x, In x (i_reps (irun p h)) /\ claimed_rep x = true)
+        /\ (exists y, In y (i_reps (irun p h)) /\ timeout_rep y = true)).
+Proof. exact inc_no_contradiction. Qed.
+
+(* An outcome has its cause: settled only if the beacon knew the preimage,
+   failed only if the expiry height was reached; nothing else is ever emitted. *)
+Theorem C13_incoming_outcome_caused : forall (p : iparams) (h : list iev),
+  (In (OFinal (ip_idx p) true) (i_outs (irun p h)) -> i_pre (irun p h) = true)
+  /\ (In (OFinal (ip_idx p) false) (i_outs (irun p h)) -> i_exp (irun p h) = true)
+  /\ (forall o, In o (i_outs (irun p h)) -> exists b, o = OFinal (ip_idx p) b).
+Proof. exact inc_outcome_caused. Qed.
+
+(* At every instant of every history the machine is a state of the STAGED
+   resolver of RestartModel running ONE of the two scripts [inc_script p
+   claim], the one named by the persisted contract: everything emitted so far
+   belongs to that script, and every stage the persisted progress counts as
+   completed has delivered its outputs and reports.  (This is what makes the
+   whole-channel theorems, which are proved for every staged script,
+   applicable to received htlcs.) *)
+Theorem C13_incoming_refines_script : forall (p : iparams) (h : list iev),
+  let s := irun p h in
+  let sc := inc_script p (chosen (i_disk s)) in
+  incl (i_outs s) (flat_map s_outs sc) /\ incl (i_reps s) (flat_map s_rep sc)
+  /\ match iprog p (i_disk s) with
+     | Some n => n <= length sc
+                 /\ forall j g, j < n -> nth_error sc j = Some g ->
+                      incl (s_outs g) (i_outs s) /\ incl (s_rep g) (i_reps s)
+     | None => forall g, In g sc -> incl (s_outs g) (i_outs s) /\ incl (s_rep g) (i_reps s)
+     end.
+Proof. exact inc_refines_script. Qed.
+
+(* PROGRESS: wherever the node was stopped, once the preimage is known or the
+   expiry height reached, 12 resolver steps without a further stop resolve
+   and delete the contract. *)
+Theorem C13_incoming_progress : forall (p : iparams) (h : list iev),
+  i_pre (irun p h) = true \/ i_exp (irun p h) = true ->
+  gone (isteps p 12 (irun p h)) = true.
+Proof. exact inc_progress. Qed.
+
+(* A preimage that reached the beacon before the expiry height is never lost
+   by a restart: from EVERY reachable state with the preimage known and the
+   expiry not reached, the resolver (re-launched or not) claims the htlc. *)
+Theorem C13_incoming_preimage_wins : forall (p : iparams) (h : list iev),
+  i_pre (irun p h) = true -> i_exp (irun p h) = false ->
+  let s' := isteps p 12 (irun p h) in
+  i_disk s' = IDGone true
+  /\ In (OFinal (ip_idx p) true) (i_outs s') /\ incl (claim_reps p) (i_reps s')
+  /\ ~ In (OFinal (ip_idx p) false) (i_outs s').
+Proof. exact inc_preimage_wins. Qed.
+
+(* Whole channel: a scenario that contains the staged resolver of a received
+   htlc (either branch) -- every history that marks the channel fully
+   resolved has delivered that htlc's final outcome and reports, and the
+   opposite outcome only if the uninterrupted run produces it. *)
+Theorem C13_incoming_same_outcome : forall (sc : scen) (h : list ev) (p : iparams) (claim : bool),
+  wf_scen sc = true ->
+  (sc_cs_acts sc = false \/ sc_fails_default sc = []) ->
+  In (inc_spec p claim) (sc_resolvers sc) ->
+  terminal (run sc h) = true ->
+  In (OFinal (ip_idx p) claim) (outs (run sc h))
+  /\ incl (if claim then claim_reps p else exp_reps p) (d_rep (dk (run sc h)))
+  /\ (~ In (OFinal (ip_idx p) (negb claim)) (expected_outs sc) ->
+      ~ In (OFinal (ip_idx p) (negb claim)) (outs (run sc h))).
+Proof.
+  intros sc h p claim Hwf Hd Hin Ht.
+  destruct (C13_same_outcome sc h Hwf Hd Ht) as [A B].
+  set (g := if claim then mkStage [OFinal (ip_idx p) true] (claim_reps p)
+            else mkStage [OFinal (ip_idx p) false] (exp_reps p)).
+  assert (Hg : In g (r_stages (inc_spec p claim))).
+  { unfold g, inc_spec, inc_script. simpl. destruct claim; simpl.
+    - right. apply in_or_app. right. left. reflexivity.
+    - left. reflexivity. }
+  split; [|split].
+  - apply (A (OFinal (ip_idx p) claim) eq_refl). unfold expected_outs.
+    apply in_or_app. right. apply in_or_app. right. apply in_or_app. left.
+    unfold resolver_outs. apply in_flat_map. exists (inc_spec p claim). split; [exact Hin|].
+    apply in_flat_map. exists g. split; [exact Hg|]. unfold g. destruct claim; left; reflexivity.
+  - intros x Hx. apply B. unfold resolver_reps. apply in_flat_map.
+    exists (inc_spec p claim). split; [exact Hin|]. apply in_flat_map. exists g.
+    split; [exact Hg|]. unfold g. destruct claim; exact Hx.
+  - intros Hn Ho. apply Hn. apply (A _ eq_refl). exact Ho.
 Qed.
